@@ -92,10 +92,14 @@ theorem lookupRef_agree (p : Program) (pipe : Callable) (self : Env) (sib sib' :
     rw [hag r.id (h hk)]
     rfl
 
-theorem remove_calls_nodes (ti : TypeInfo) (p : Program) (hok : CallRemOK rem p = true)
-    (big fuel : Nat) (t : Call) (ht : p.top = some t) :
-    nodesOf ti (applyCallRemovals rem p) big fuel (topPipe t) [] [] t
-      = nodesOfKeep (keepOf rem) ti p big fuel (topPipe t) [] [] t := by
+/-- the simulation hypotheses of the deletion edit, and the facts about the top-level context -/
+theorem remove_calls_sim (ti : TypeInfo) (p : Program) (hok : CallRemOK rem p = true)
+    (t : Call) (ht : p.top = some t) :
+    SimHyp ti ti p (applyCallRemovals rem p) id (FDel rem) (fun _ k => k)
+      (fun _ e => e) (fun _ _ v => v) id (fun c => pipeOKDel rem c = true) (fun _ _ => True)
+      (fun _ _ => True) (fun _ => True) (keepOf rem)
+    ∧ pipeOKDel rem (topPipe t) = true ∧ FDel rem (topPipe t) = topPipe t
+    ∧ keepOf rem (topPipe t) t.id = true := by
   simp only [CallRemOK, Bool.and_eq_true, List.all_eq_true, bne_iff_ne, ne_eq] at hok
   obtain ⟨⟨hne, hall⟩, htopok⟩ := hok
   have htop : pipeOKDel rem (topPipe t) = true := by simpa [ht] using htopok
@@ -179,7 +183,30 @@ theorem remove_calls_nodes (ti : TypeInfo) (p : Program) (hok : CallRemOK rem p 
     unfold FDel; rw [hfindtop]
   have hkt : keepOf rem (topPipe t) t.id = true := by
     unfold keepOf; rw [hfindtop]
+  exact ⟨H, htop, hFt, hkt⟩
+
+theorem remove_calls_nodes (ti : TypeInfo) (p : Program) (hok : CallRemOK rem p = true)
+    (big fuel : Nat) (t : Call) (ht : p.top = some t) :
+    nodesOf ti (applyCallRemovals rem p) big fuel (topPipe t) [] [] t
+      = nodesOfKeep (keepOf rem) ti p big fuel (topPipe t) [] [] t := by
+  obtain ⟨H, htop, hFt, hkt⟩ := remove_calls_sim rem ti p hok t ht
   have := sim_graph_at H big fuel t htop trivial hkt hFt rfl
+  have hmap : nodeMap id (fun _ e => e) (fun _ _ v => v) id = fun n : Node => n := by
+    funext n; simp [nodeMap]
+  rw [hmap, List.map_id'] at this
+  exact this
+
+/-- the same for a restricted graph: `K` may depend on the callable's name and kind only -/
+theorem remove_calls_nodesK (ti : TypeInfo) (p : Program) (hok : CallRemOK rem p = true)
+    (κ : String → Bool → String → Bool)
+    (big fuel : Nat) (t : Call) (ht : p.top = some t) :
+    nodesOfKeep (fun c i => κ c.name c.isPipe i) ti (applyCallRemovals rem p) big fuel (topPipe t) [] [] t
+      = nodesOfKeep (fun c i => keepOf rem c i && κ c.name c.isPipe i) ti p big fuel (topPipe t) [] [] t := by
+  obtain ⟨H, htop, hFt, hkt⟩ := remove_calls_sim rem ti p hok t ht
+  have := sim_graph_atK H (fun c i => κ c.name c.isPipe i)
+    (fun c _ i => by
+      have hF := FDel_fields rem c
+      simp only [hF.1, hF.2.1]) big fuel t htop trivial hkt hFt rfl
   have hmap : nodeMap id (fun _ e => e) (fun _ _ v => v) id = fun n : Node => n := by
     funext n; simp [nodeMap]
   rw [hmap, List.map_id'] at this
